@@ -14,7 +14,7 @@ LEVEL_TEXT = (
     "(4) without the hypothesis the law fails (proved witness Set(Add(1,2))); (5) reduction commutes with every stage: "
     "for a well-formed, sealed expression e, if the reducer answers r on e, a on stage(e) and b on stage(r) then a = b, "
     "for arguments, input UTxOs and the fee alike and for every fuel (C07_reduce_commutes_with_stage, proved once over "
-    "the laws IsStage that the three stages satisfy), hence along chains of stages (C07_two_stages), and the reducer's "
+    "the laws IsStage that the three stages satisfy), hence along chains of stages (C07_two_stages) and, lifted through the eleven fields, for whole transactions (C07_tx_reduce_commutes_with_stage), and the reducer's "
     "answer does not depend on its fuel (reduceF_det). Clauses involving the compiler pass and "
     "the equality of final templates across whole-transaction schedules are decided per generated template by running every stage "
     "permutation x every reduce placement on the real crates and comparing canonical results, with the model's "
@@ -22,7 +22,7 @@ LEVEL_TEXT = (
     "on every template and applied template."
 )
 LEVEL_NOTE = (
-    "Partial: confluence of reduce with the three substitution stages is a theorem for expressions when all the "
+    "Partial: confluence of reduce with the three substitution stages is a theorem for expressions and transactions when all the "
     "reductions involved succeed (that an error on one schedule is an error on the others is explored per case, and is "
     "where the known finding lives); the compiler pass in a schedule is explored exhaustively per case (up to 384 "
     "schedules), not a theorem; the hypotheses WF and Sealed are evaluated on every generated template (tags wf-holds, "
@@ -30,8 +30,8 @@ LEVEL_NOTE = (
     "Known finding C07-query-error-masked is reported, not suppressed silently."
 )
 PROP = "C07"
-LEAN_TARGETS = ["Tx3Proofs.C07", "Tx3Proofs.C07Reduce", "Tx3Proofs.C07Confluence"]
-AUDIT_MODULES = ["Tx3Proofs.C07", "Tx3Proofs.C07Reduce", "Tx3Proofs.C07Confluence"]
+LEAN_TARGETS = ["Tx3Proofs.C07", "Tx3Proofs.C07Reduce", "Tx3Proofs.C07Confluence", "Tx3Proofs.C07Tx"]
+AUDIT_MODULES = ["Tx3Proofs.C07", "Tx3Proofs.C07Reduce", "Tx3Proofs.C07Confluence", "Tx3Proofs.C07Tx"]
 THEOREMS = [
     "Tx3.Expr.C07_args_fees", "Tx3.Expr.C07_args_inputs", "Tx3.Expr.C07_fees_inputs",
     "Tx3.Stage.commute_expr", "Tx3.C07_apply_commute",
@@ -39,6 +39,7 @@ THEOREMS = [
     "Tx3.C07_reduce_not_idempotent_without_WF", "Tx3.C07_stages_preserve_WF", "Tx3.C07_reduce_preserves_WF",
     "Tx3.reduce_sealed", "Tx3.confl_args", "Tx3.reduceF_det", "Tx3.confl_stage", "Tx3.Stage.isStage",
     "Tx3.C07_reduce_commutes_with_stage", "Tx3.C07_reduce_then_stage", "Tx3.C07_two_stages", "Tx3.sealedb_Sealed",
+    "Tx3.Tx.mapM_rel", "Tx3.C07_tx_reduce_commutes_with_stage",
 ]
 
 RULE = (
